@@ -54,6 +54,11 @@ pub mod ext_mpsc {
     pub uninterp spec fn queue_of_rx<T>(r: &mpsc::Receiver<T>) -> int;
     pub uninterp spec fn queue_of_tx<T>(s: &mpsc::Sender<T>) -> int;
     pub uninterp spec fn queue_of_stx<T>(s: &mpsc::SyncSender<T>) -> int;
+    /// ASSUMED: a cloned sender is another handle to the same queue
+    pub assume_specification<T> [<mpsc::Sender<T> as Clone>::clone] (s: &mpsc::Sender<T>) -> (r: mpsc::Sender<T>)
+        ensures queue_of_tx(&r) == queue_of_tx(s);
+    pub assume_specification<T> [<mpsc::SyncSender<T> as Clone>::clone] (s: &mpsc::SyncSender<T>) -> (r: mpsc::SyncSender<T>)
+        ensures queue_of_stx(&r) == queue_of_stx(s);
     pub assume_specification<T> [mpsc::channel::<T>] () -> (r: (mpsc::Sender<T>, mpsc::Receiver<T>))
         ensures queue_of_tx(&r.0) == queue_of_rx(&r.1);
     pub assume_specification<T> [mpsc::sync_channel::<T>] (bound: usize) -> (r: (mpsc::SyncSender<T>, mpsc::Receiver<T>))
